@@ -39,7 +39,7 @@ func (d *decoder) Read(b []byte) (int, error) {
 	if d.err != nil {
 		return 0, d.err
 	}
-	if d.remain == 0 {
+	if d.remain <= 0 {
 		return 0, io.EOF
 	}
 	if len(b) > d.remain {
@@ -59,7 +59,7 @@ func (d *decoder) ReadByte() (byte, error) {
 }
 
 func (d *decoder) done() bool {
-	return d.remain == 0 || d.err != nil
+	return d.remain <= 0 || d.err != nil
 }
 
 func (d *decoder) setCRC(table *crc32.Table) {
@@ -107,7 +107,7 @@ func (d *decoder) decodeCompactBytes(v value) {
 }
 
 func (d *decoder) decodeArray(v value, elemType reflect.Type, decodeElem decodeFunc) {
-	if n := d.readInt32(); n < 0 {
+	if n := d.readInt32(); n < 0 || !d.validLength(int(n)) {
 		v.setArray(array{})
 	} else {
 		a := makeArray(elemType, int(n))
@@ -119,7 +119,7 @@ func (d *decoder) decodeArray(v value, elemType reflect.Type, decodeElem decodeF
 }
 
 func (d *decoder) decodeCompactArray(v value, elemType reflect.Type, decodeElem decodeFunc) {
-	if n := d.readUnsignedVarInt(); n < 1 {
+	if n := d.readUnsignedVarInt(); n < 1 || !d.validLength(int(n-1)) {
 		v.setArray(array{})
 	} else {
 		a := makeArray(elemType, int(n-1))
@@ -138,6 +138,9 @@ func (d *decoder) discard(n int) {
 	if n > d.remain {
 		n = d.remain
 	}
+	if n <= 0 {
+		return
+	}
 	var err error
 	if r, _ := d.reader.(discarder); r != nil {
 		n, err = r.Discard(n)
@@ -148,7 +151,31 @@ func (d *decoder) discard(n int) {
 	d.setError(err)
 }
 
+// validLength reports whether n, a length or a count found in the input, can
+// be honoured by what remains of the message: every byte of a string and every
+// element of an array takes at least one byte. The decoder fails otherwise, so
+// that a corrupted or hostile length never sizes an allocation.
+func (d *decoder) validLength(n int) bool {
+	if n < 0 || n > d.remain {
+		d.setError(io.ErrUnexpectedEOF)
+		return false
+	}
+	return true
+}
+
+// skip discards n bytes, which must be present in the message.
+func (d *decoder) skip(n int64) {
+	if n > int64(d.remain) {
+		d.setError(io.ErrUnexpectedEOF)
+	} else {
+		d.discard(int(n))
+	}
+}
+
 func (d *decoder) read(n int) []byte {
+	if !d.validLength(n) {
+		return nil
+	}
 	b := make([]byte, n)
 	n, err := io.ReadFull(d, b)
 	b = b[:n]
@@ -429,7 +456,7 @@ func structDecodeFuncOf(typ reflect.Type, version int16, flexible bool) decodeFu
 			// for details of tag buffers in "flexible" messages.
 			n := int(d.readUnsignedVarInt())
 
-			for i := 0; i < n; i++ {
+			for i := 0; i < n && d.err == nil; i++ {
 				tagID := int(d.readUnsignedVarInt())
 				size := int(d.readUnsignedVarInt())
 
